@@ -552,6 +552,8 @@ def judge(ctx, label, traces):
             ctx.cov["unspecified"] += 1
             continue
         _, tid, step, clause, detail = p
+        if clause == "schema":
+            raise MachineryError("malformed trace %r at call %r: %r" % (tid, step, detail))
         t = byid[tid]
         op = t["ops"][step - 1]
         kind = "clone" if op["tgt"] == "clone" else edit_kind(op["e"])
@@ -911,7 +913,7 @@ def selftest(ctx):
         "acc-o": lambda t: t["ops"][4].__setitem__("ro", "ok"),
         "abs-c": lambda t: t["ops"][4]["ac"]["objs"].append("n"),
         "clone-abs": lambda t: t["ops"][2]["ac"]["goals"].clear(),
-        "indep-c": lambda t: t["ops"][5]["ac"]["goals"].append("g1"),
+        "indep-c": lambda t: t["ops"][5]["ac"]["traj"].append("tr1"),
         "clone-orig": lambda t: t["ops"][2]["ao"]["teffs"].clear(),
     }
     traces = [clean]
